@@ -317,6 +317,11 @@ func H_C11_DamagedInput() {
 		vrt.Reach("damagedinput/compaction-reported-success")
 		vrt.Assert(h.db.sstableManager.reflectCompactionResult(meta) == nil, "damagedinput/reflect-no-error")
 		h.checkReads("damagedinput/success-reported-means-nothing-is-missing")
+		// the rotated-out memstore still answers for the newest writes: look again after a restart
+		h.close()
+		vrt.Assert(h.open(opts...) == nil, "damagedinput/reopen-no-error")
+		h.checkReads("damagedinput/success-reported-means-nothing-is-missing-after-restart")
+		h.close()
 	}
 	vrt.TraceBool("done", true)
 	vrt.Reach("damagedinput/end")
